@@ -73,4 +73,20 @@ PROPS = {
                         "Linux limits NAME_MAX=255, PATH_MAX=4096 in the model"],
         "trusted_base": ["std::path::Path::components modelled in Path.v (56 examples generated from the real rustc output)"],
     },
+    "C18": {
+        "jobs": lambda tier: [
+            J("prod", "c18", script="tools/keys/c18_job.py", timeout=1800),
+        ],
+        "rule": "corpus of tools/keys/gen_corpus.py: sample keys, generated X25519/Ed25519 keys in DER and PEM, EVERY single-byte mutation "
+                "(00, ff, +1, -1, ^80) and EVERY truncation of the 48-byte private and 44-byte public DER (also inside PEM), hand-made DER shapes, "
+                "PEM line widths 1..76/no wrap x CRLF/LF, whitespace/garbage, concatenations of 1-5 keys, random strings; quick keeps every third "
+                "input of the two largest mutation sweeps; non-trivial = non-empty input; distinct = distinct input",
+        "exhaustive": {"quick": False, "thorough": True},
+        "explanation": "theorems: export/parse round trip, base64/PEM round trip for every line width, many-keys order, totality (never Crash) "
+                       "of all parsers on every byte string; correspondence: outcome class and the 32 key bytes of the three real parse functions "
+                       "equal the model's on every corpus input; curve conversions (SHA-512 clamp, Edwards->Montgomery) are parameters of the "
+                       "model (applied by the job script; Concrete/Ed25519.v proves the pair-match KATs)",
+        "assumptions": ["der-parser 10 / asn1-rs 0.7 / pem 3.0.5 / base64 0.22 behaviour as modelled in Keys.v (validated on 5.8k inputs)",
+                        "Ed25519->X25519 conversion correctness is curve mathematics (sampled: 24/24 pairs; 2 in-Coq KATs), not proved"],
+    },
 }
